@@ -39,6 +39,7 @@ BT = 'btpu/agent.py'
 # (expected obligations, file, old text, new text)
 BREAK = {
     'C01': [
+        (['C01.i'], S, "            except (BlockingIOError, ssl.SSLWantWriteError, ssl.SSLWantReadError):\n                # the socket cannot take more right now: keep the octets\n                # and wait for it to become writable\n                return True\n", ""),
         (['C01.a'], S, "self._tx_tmp = self._tx_pend_start.pop(0)", "self._tx_tmp = self._tx_pend_start.pop()"),
         (['C01.b'], S, "self.__rx_buf = self.__rx_buf[len(pkt_data):]", "self.__rx_buf = self.__rx_buf[len(pkt_data) + 1:]"),
         (['C01.b'], S, "self.__tx_buf = self.__tx_buf[tx_size:]", "self.__tx_buf = self.__tx_buf[len(data):]"),
@@ -50,6 +51,7 @@ BREAK = {
         (['C01.f'], S, "        # send next segment (a zero-length bundle is one empty START+END segment)\n", "        if self._tx_length == self._tx_tmp.total_length:\n            return False\n"),
     ],
     'C04': [
+        (['C04.d'], S, "        if self._tx_length == 0:\n            flg |= messages.TransferSegment.Flag.START\n            if 'private_extensions' in self._config.enable_test:\n                ext_items.append(messages.TransferExtendHeader(flags=messages.SessionExtendHeader.Flag.CRITICAL) / extend.TransferPrivateDummy())\n", "        if 'private_extensions' in self._config.enable_test:\n            ext_items.append(messages.TransferExtendHeader(flags=messages.SessionExtendHeader.Flag.CRITICAL) / extend.TransferPrivateDummy())\n        if self._tx_length == 0:\n            flg |= messages.TransferSegment.Flag.START\n"),
         (['C04.d'], S, "        if ext_items and not flg & messages.TransferSegment.Flag.START:\n            raise RuntimeError(\n                'Cannot send extension items outside of START message')\n", ""),
         (['C04.a'], S, "        if not self._in_sess:\n            raise RuntimeError(\n                'Attempt to transfer before session established')\n        if ext_items and", "        if ext_items and"),
         (['C04.a'], S, "        if self._in_term:\n            raise RuntimeError('Already in terminating state')\n", ""),
@@ -92,14 +94,17 @@ BREAK = {
         (['C08.c'], BN, "        for blk in self.blocks:\n            if not blk.check_crc():\n                fail.add(blk.block_num)", "        for blk in self.blocks[:1]:\n            if not blk.check_crc():\n                fail.add(blk.block_num)"),
     ],
     'C09': [
+        (['C09.a'], S, "        if self._in_term and self._term_recv and self.is_sess_idle():", "        if self._in_term and self.is_sess_idle():"),
+        (['C09.a'], S, "        if buf_empty and up_empty:\n            self.send_drained()\n", ""),
+        (['C09.a'], S, "        Messenger.recv_sess_term(self, reason)\n        self._term_recv = True\n", "        Messenger.recv_sess_term(self, reason)\n"),
+        (['C09.i'], S, "            and len(self.__tx_buf) == 0\n            and self.send_pending() == 0\n", "            and len(self.__tx_buf) == 0\n"),
         (['C09.a'], S, "        # the buffer has drained only now, after the last handler returned\n        self._check_sess_term()\n", ""),
         (['C09.c'], S, "        if self._in_term:\n            # it could never be started, and would keep the session from closing\n            raise RuntimeError('Cannot send a bundle in terminating state')\n", ""),
-        (['C09.c'], S, "                'connection closed'\n            )\n", "                'success'\n            )\n"),
+        (['C09.c'], S, "                item.total_length or 0,\n                'connection closed'\n            )\n", "                item.total_length or 0,\n                'success'\n            )\n"),
         (['C09.e'], S, "        if not self._in_sess:\n            # no session to terminate gracefully yet\n            self.close()\n            return\n", ""),
         (['C09.e'], S, "        if self._in_term:\n            # termination is already in progress\n            return\n", ""),
         (['C09.d'], S, "            if self._in_term:\n                # no new transfer may start after SESS_TERM\n                return False\n", ""),
         (['C09.f'], 'tcpcl/agent.py', "        path = hdl.object_path\n        self.connection_closed(path)\n", "        path = hdl.object_path\n"),
-        (['C09.a'], S, "            self._rx_teardown()\n\n            self._check_sess_term()", "            self._rx_teardown()\n"),
         (['C09.b'], S, "                        self.send_sess_term(pkt.payload.reason, True)", "                        self.send_sess_term(pkt.payload.reason, False)"),
         (['C09.e'], S, "        if self._in_term:\n            # already terminating and nothing further heard\n            self.close()\n            return False\n", ""),
         (['C09.g'], 'tcpcl/agent.py', "        for hdl in tuple(self._handlers):\n            hdl.close()", "        for hdl in self._handlers:\n            hdl.close()"),
@@ -144,7 +149,8 @@ BREAK = {
         (['C15.a'], S, "        self._tls_attempt = (this_can_tls and peer_can_tls)", "        self._tls_attempt = (this_can_tls or peer_can_tls)"),
         (['C15.b'], S, "                if self.is_secure() != self._config.require_tls:\n                    self._logger.error('TLS result violated policy')\n                    self.close()\n                    return", "                if self.is_secure() != self._config.require_tls:\n                    self._logger.error('TLS result violated policy')"),
         (['C15.c'], S, "            netname_absent = not authn_ipaddrid and not authn_dnsid", "            netname_absent = authn_ipaddrid is None and authn_dnsid is None"),
-        (['C15.d'], S, "                    self._sessinit_peer = pkt.payload\n                    self._in_sess = True\n                    self.merge_session_params()\n                    self._update_state('established')", "                    self._sessinit_peer = pkt.payload\n                    self._in_sess = True\n                    self._update_state('established')\n                    self.merge_session_params()"),
+        (['C15.d'], S, "                        self._sess_refused = True\n                        raise\n                    self._update_state('established')", "                        raise\n                    self._update_state('established')"),
+        (['C15.b'], S, "                if self.__rx_buf:\n                    # nothing in the clear may follow the contact header,\n                    # it would be taken for part of the secured stream\n                    self._logger.error('Unsecured data before TLS handshake')\n                    self.close()\n                    return\n", ""),
     ],
     'C16': [
         (['C16.c'], SEC, "            elif isinstance(msg_obj, EncMessage):", "            elif isinstance(msg_obj, MacMessage):"),
@@ -152,6 +158,11 @@ BREAK = {
         (['C16.b'], SEC, "        if plaintext is not None:\n            LOGGER.info('Verified BCB num", "        if plaintext:\n            LOGGER.info('Verified BCB num"),
     ],
     'C17': [
+        (['C17.d'], S, "                item = self._rx_tmp\n                self._rx_teardown()\n                self.recv_bundle_finished(\n                    str(item.transfer_id),\n                    item.file.tell(),\n                    'abandoned'\n                )\n", "                pass\n"),
+        (['C17.a'], S, "            if self.get_app_socket() is None:\n                # closed by the handler, what else was read is void\n                self.__rx_buf = b''\n                return\n", ""),
+        (['C17.b'], S, "                    if self._sessinit_peer is not None:\n                        # one SESS_INIT per session, there is no renegotiation\n                        raise RejectError(messages.RejectMsg.Reason.UNEXPECTED)\n", ""),
+        (['C17.d'], S, "            if transfer_id in self._rx_map:\n                # each ID only once: the bundle waiting to be popped\n                # is not replaced\n                raise RejectError(messages.RejectMsg.Reason.UNEXPECTED)\n", ""),
+        (['C17.f'], M, "            # its header alone is passed on to be rejected\n            self.remove_payload()", "            # its header alone is passed on to be rejected\n            pass"),
         (['C17.f'], M, "        if msgcls is self.default_payload_class(b''):", "        if False:"),
         (['C17.a'], 'tcpcl/contact.py', "        if len(s) < len(MAGIC_HEAD) + 1:\n            raise formats.VerifyError('Contact header too short')\n", ""),
         (['C17.e'], S, "        self._tx_pend_ack.discard(item)\n        if item in self._tx_pend_start:", "        self._tx_pend_ack.clear()\n        if item in self._tx_pend_start:"),
@@ -203,7 +214,8 @@ BENIGN = {
     'C04': [(S, "        if not self._in_sess:\n            raise RuntimeError('Cannot terminate while not in session')\n        if self._in_term:\n            raise RuntimeError('Already in terminating state')",
                 "        if not self._in_sess or self._in_term:\n            raise RuntimeError('Cannot terminate now')")],
     'C08': [(BA, "        data = bytes(ctr.bundle)\n        self._logger.info('send_bundle size %d', len(data))", "        encoded = bytes(ctr.bundle)\n        data = encoded\n        self._logger.info('send_bundle size %d', len(data))")],
-    'C09': [(S, "        if self._in_term and self.is_sess_idle():\n            self._logger.info('Closing in terminating state')\n            self.close()", "        if not self._in_term:\n            return\n        if self.is_sess_idle():\n            self._logger.info('Closing in terminating state')\n            self.close()")],
+    'C09': [(S, "        if self._in_term and self._term_recv and self.is_sess_idle():\n            self._logger.info('Closing in terminating state')\n            self.close()", "        if not self._in_term or not self._term_recv:\n            return\n        if self.is_sess_idle():\n            self._logger.info('Closing in terminating state')\n            self.close()"),
+            (S, "            self._rx_teardown()\n\n            self._check_sess_term()", "            self._rx_teardown()\n")],
     'C10': [(BA, "        if ident in self._seen_bundle_ident:\n            self._logger.debug('Ignoring already seen bundle %s', ident)\n            return\n        else:\n            self._seen_bundle_ident.add(ident)", "        if ident in self._seen_bundle_ident:\n            self._logger.debug('Ignoring already seen bundle %s', ident)\n            return\n        self._seen_bundle_ident.add(ident)")],
     'C12': [(SEC, "        if failure:\n            LOGGER.warning('Deleting bundle with BIB failure codes %s', failure)\n            if 'deliver' in ctr.actions:\n                del ctr.actions['deliver']", "        if failure:\n            LOGGER.warning('Deleting bundle with BIB failure codes %s', failure)\n            del ctr.actions['deliver']")],
     'C17': [(S, "        if transfer_id not in self._tx_map:\n            raise RejectError(messages.RejectMsg.Reason.UNEXPECTED)\n\n        item = self._tx_map.pop(transfer_id)", "        if not (transfer_id in self._tx_map):\n            raise RejectError(messages.RejectMsg.Reason.UNEXPECTED)\n\n        item = self._tx_map.pop(transfer_id)")],
@@ -280,6 +292,8 @@ def _job(args):
                     return (kind, name, 'skipped', 'patch does not apply to the current tree')
                 chk = _decide(prop, None, tmp)
                 hits = [f for ob in chk.obligations for f in ob.findings if f.key not in known]
+                if meta.get('status') == 'retired':
+                    return (kind, name, 'skipped', 'retired seed (no longer demonstrated on the repaired tree)')
                 if meta.get('status') == 'neutralised':
                     if hits:
                         return (kind, name, 'MISMATCH', 'neutralised seed raises an alarm: ' + hits[0].key)
